@@ -645,6 +645,16 @@ def run_spec(spec, pattern, res, prior=None, args=None):
                 for k, v in args.items():
                     if not callable(v):
                         set_readonly(v)
+            if pattern == "noncontig":
+                # the same values in another memory layout: strided views of larger buffers (1-D), Fortran order (2-D)
+                for k, v in list(args.items()):
+                    if isinstance(v, np.ndarray) and v.ndim == 1 and v.size:
+                        big = np.empty(2 * v.size + 1, dtype=v.dtype)
+                        big[1::2] = v
+                        big[0::2] = 0
+                        args[k] = big[1::2]
+                    elif isinstance(v, np.ndarray) and v.ndim == 2 and v.size:
+                        args[k] = np.asfortranarray(v)
             before = {k: snap(v) for k, v in args.items() if not isinstance(v, Callback)}
             np.random.seed(0)
             res.count()
@@ -677,7 +687,7 @@ def _spec_job(arg):
     spec = catalogue()[idx]
     res = WorkerResult(section="patterns")
     base, _ = run_spec(spec, "fresh", res)
-    patterns = ["readonly"]
+    patterns = ["readonly", "noncontig"]
     if spec.same:
         patterns.append("same")
     if spec.callbacks:
